@@ -83,6 +83,15 @@ def python_seeds(rng):
     seeds.append(("py-dict-f", pq.build_file([
         {"name": "x", "type": pq.FLOAT, "rows": [struct.pack("<f", x % 2) for x in range(9)], "dict": True, "enc": pq.RLE_DICTIONARY},
         {"name": "y", "type": pq.DOUBLE, "rep": pq.OPTIONAL, "rows": [f64(1.5), None, f64(2.5)] * 3, "dict": True}], codec=0)))
+    # nested groups: schema { a: int32 required; g (optional group) { x: int32 required; y (optional group) { z: int64 optional } } }
+    lv_x = [1, 0, 1, 1, 0, 1]
+    lv_z = [3, 0, 2, 1, 0, 3]
+    seeds.append(("py-nested", pq.build_file([
+        {"name": "a", "type": pq.INT32, "rows": [i32(x) for x in range(6)]},
+        {"name": "x", "path": ["g", "x"], "type": pq.INT32, "levels": lv_x, "max_def": 1, "rows": [i32(7)] * lv_x.count(1)},
+        {"name": "z", "path": ["g", "y", "z"], "type": pq.INT64, "levels": lv_z, "max_def": 3, "rows": [i64(9)] * lv_z.count(3)}],
+        schema_elems=[("schema", None, None, 2, 0), ("a", pq.INT32, pq.REQUIRED, 0, 0), ("g", None, pq.OPTIONAL, 2, 0),
+                      ("x", pq.INT32, pq.REQUIRED, 0, 0), ("y", None, pq.OPTIONAL, 1, 0), ("z", pq.INT64, pq.OPTIONAL, 0, 0)])))
     return seeds
 
 
